@@ -72,6 +72,7 @@ static int gen_poly(Poly *P, int i, int quick) {
     double target = TARGETS[vt_randn(quick ? 7 : 8)];
     double r = exp(log(2e-6) + vt_rand01() * (log(0.25) - log(2e-6)));
     if (g_polar_d > 0) r = g_polar_d * (0.05 + 0.4 * vt_rand01());           /* stays clear of the pole, less than 180 degrees wide */
+    if (i % 8 == 1 && vt_randn(4)) lng0 = wrap_lng(M_PI + 0.6 * r * (vt_rand01() - 0.5) / cos(lat0));   /* the antimeridian runs through the middle part of the polygon whatever its size */
     int kind = g_force_kind >= 0 ? g_force_kind : (int)vt_randn(12); if (kind == 9) kind = 12; int nh = 0; int n = 4; int rev = (int)vt_randn(2);
     P->g.holes = P->holes;
     switch (kind) {
@@ -263,6 +264,8 @@ int main(int argc, char **argv) {
     g_force_kind = 9; for (int i = 0; i < (quick ? 160 : 1500); i++) { Poly P; if (gen_poly(&P, i, quick)) continue; fill_event(&P, maxcand); } g_force_kind = -1;
     /* concave features: wedges cut into the rim, parallel bands of holes whose bounding boxes overlap */
     for (int i = 0; i < (quick ? 90 : 900); i++) { Poly P; g_force_kind = i % 4 == 3 ? 13 : 10 + (i % 3 != 0); if (gen_poly(&P, i, quick)) continue; fill_event(&P, maxcand); } g_force_kind = -1;
+    /* on the antimeridian: polygons with holes (next to, across and away from it), notches, slivers, pockets */
+    { static const int KS[] = {6, 7, 8, 11, 10, 13, 6, 11}; for (int j = 0; j < (quick ? 64 : 640); j++) { Poly P; g_force_kind = KS[j % 8]; if (gen_poly(&P, 8 * j + 1, quick)) continue; fill_event(&P, maxcand); } g_force_kind = -1; }
     /* every boundary segment of the pentagons (10 segments at odd resolutions), of their neighbours and of cells cut by icosahedron edges */
     for (int res = 1; res <= (quick ? 5 : 11); res++) { H3Index pp[12]; getPentagons(res, pp); CellVec cv = {0};
         for (int q = 0; q < 12; q++) { if (quick && (res % 2 == 0) && q % 3) continue; cv_push(&cv, pp[q]); H3Index d[7] = {0}; gridDisk(pp[q], 1, d); cv_push(&cv, d[1 + vt_randn(5)]); }
